@@ -37,7 +37,7 @@ func isFloat(t types.Type) bool {
 }
 
 func runC17(e *Engine, r *Report, tier string) {
-	r.Explanation = "C17, structural clauses over fx-core code reachable (module-scoped call graph) from transaction, block, genesis and upgrade entry points. Decided: R1 every `range` over a map is classified by what its body does to anything that outlives the loop — allowed: writes into other maps, delete, counting, commutative exact accumulation (math.Int / LegacyDec .Add, integer +=), append to a slice that is sorted before any other use; violation: a call with a state effect or taking a context, event emission, append without a dominating sort, an early exit; R2 no wall clock, randomness, environment, goroutines, select or channel operations, and no process-local data (stack dumps, caller info, goroutine/CPU counts, pid) outside logger calls; R3 floating point only in the two reviewed places (power difference, rendered with fixed precision before use), no float value reaches a store write or branch elsewhere; R4 node-local switches (IsCheckTx, IsReCheckTx, MinGasPrices) never guard a state effect. Not decided: determinism of dependencies, cgo and the Go runtime."
+	r.Explanation = "C17, structural clauses over fx-core code reachable (module-scoped call graph) from transaction, block, genesis and upgrade entry points. Decided: R1 every `range` over a map is classified by what its body does to anything that outlives the loop — allowed: writes into other maps, delete, counting, commutative exact accumulation (math.Int / LegacyDec .Add, integer +=), append to a slice that is sorted before any other use; violation: a call with a state effect or taking a context, event emission, append without a dominating sort, an early exit; R2 no wall clock, randomness, environment, goroutines, select or channel operations, and no process-local data (stack dumps, caller info, goroutine/CPU counts, pid) outside logger calls; R3 floating point only in the two reviewed places (power difference, rendered with fixed precision before use), no float value reaches a store write or branch elsewhere; R4 node-local switches (IsCheckTx, IsReCheckTx, MinGasPrices) never guard a state effect; R5 no process-local mutable state: no package-level variable is written and no sync/atomic or sync.Map/Once cell is updated by code in scope (a memoised value would depend on what the process executed before). Not decided: determinism of dependencies, cgo and the Go runtime."
 	scope := e.consensusScope()
 	var fns []*ssa.Function
 	for f := range scope {
@@ -47,6 +47,8 @@ func runC17(e *Engine, r *Report, tier string) {
 	r.Note("consensus scope: %d fx-core functions", len(fns))
 	r.Rule("R1", "map iteration has only order-insensitive effects", 2, "range-over-map sites in scope")
 	r.Rule("R2", "no clock / randomness / env / concurrency in scope", 1, "")
+	r.Rule("R5", "no process-local mutable state (package variables, sync/atomic cells) written during execution", 1, "stores to globals and atomic/sync updates in scope")
+	nglob := 0
 	r.Rule("R3", "floating point confined to the reviewed fixed-precision sites", 1, "")
 	r.Rule("R4", "node-local switches never guard a state effect", 1, "")
 	if len(fns) < 300 {
@@ -66,6 +68,17 @@ func runC17(e *Engine, r *Report, tier string) {
 				}
 				nmap++
 				e.checkMapRange(r, fn, x, nmap)
+			case *ssa.Store:
+				// R5: package-level state written while executing
+				if g, ok := x.Addr.(*ssa.Global); ok && fn.Name() != "init" && !strings.HasPrefix(fn.Name(), "init#") {
+					nglob++
+					ck := key + " writes " + g.Name()
+					if why, ok := processStateExempt[g.Name()]; ok {
+						r.Ok("R5", ck, e.InstrPos(i), "reviewed: "+why)
+					} else {
+						r.Fail("R5", ck, e.InstrPos(i), "a package-level variable is written by code that runs during block execution: its value depends on what this process happened to execute before (queries, mempool checks, restarts), not only on the chain state")
+					}
+				}
 			case *ssa.Go:
 				nbad2++
 				r.Fail("R2", key+" go", e.InstrPos(i), "goroutine started in consensus code")
@@ -92,6 +105,24 @@ func runC17(e *Engine, r *Report, tier string) {
 						if v, ok := x.(ssa.Value); ok && !onlyLogged(v, 0) {
 							nbad2++
 							r.Fail("R2", key+" "+full, e.InstrPos(i), "process-local data ("+full+") flows into something other than a logger call: if it reaches an error text, an event or the store, validators disagree")
+						}
+					}
+				}
+				// R5: process-local mutable cells (sync/atomic, sync.Map, sync.Once) used from consensus code
+				if f != nil {
+					pp := fnPkgPath(f)
+					if o := f.Origin(); o != nil && pp == "" {
+						pp = fnPkgPath(o)
+					}
+					nm := f.Name()
+					if k := strings.Index(nm, "["); k > 0 {
+						nm = nm[:k]
+					}
+					if (pp == "sync/atomic" || pp == "sync") && f.Signature.Recv() != nil {
+						switch nm {
+						case "Store", "Swap", "CompareAndSwap", "Add", "LoadOrStore", "LoadAndDelete", "Delete", "Do", "And", "Or":
+							nglob++
+							r.Fail("R5", key+" "+pp+"."+nm, e.InstrPos(i), "a process-local memory cell ("+recvTypeName(x)+") is updated by code that runs during block execution: what later blocks read from it depends on this process's own history (queries, mempool checks, restarts), so validators can diverge")
 						}
 					}
 				}
@@ -149,6 +180,9 @@ func runC17(e *Engine, r *Report, tier string) {
 	}
 	if nbad2 == 0 {
 		r.Ok("R2", "scope", "", fmt.Sprintf("%d functions scanned: no clock, randomness, env, goroutine or select", len(fns)))
+	}
+	if nglob == 0 {
+		r.Ok("R5", "scope", "", fmt.Sprintf("%d functions scanned: no package variable is written and no sync/atomic cell is updated during execution", len(fns)))
 	}
 	if nfloat == 0 {
 		r.Fail("R3", "float sites", "", "UNRESOLVED-ANCHOR: the reviewed float site (PowerDiff) is not in scope any more")
@@ -370,3 +404,6 @@ func onlyLogged(v ssa.Value, depth int) bool {
 	}
 	return true
 }
+
+// processStateExempt: package-level variables that consensus-reachable code may write, each with its reason.
+var processStateExempt = map[string]string{}
